@@ -53,8 +53,32 @@ pub struct St {
     pub rx: RxS,
 }
 
+/// what the receiver holds before the transfer starts
+#[derive(Clone, Copy, Debug, PartialEq, Eq, Hash)]
+pub enum RxPrior {
+    Fresh,
+    /// an unfinished train on the SAME fragment id with the same label, protocol type and total length (an
+    /// earlier attempt to send this PDU, cut differently): first fragment with 1 byte, intermediate with 1 byte
+    AbandonedSameHeader,
+    /// an unfinished train on an aliasing fragment id (same memory slot)
+    AbandonedAlias,
+}
+
+impl RxPrior {
+    pub fn name(self) -> &'static str {
+        match self {
+            RxPrior::Fresh => "fresh",
+            RxPrior::AbandonedSameHeader => "abandoned-same-header",
+            RxPrior::AbandonedAlias => "abandoned-alias",
+        }
+    }
+}
+
+pub const RX_PRIORS: [RxPrior; 3] = [RxPrior::Fresh, RxPrior::AbandonedSameHeader, RxPrior::AbandonedAlias];
+
 pub struct Case {
     pub pdu: Vec<u8>,
+    pub rx_prior: RxPrior,
     pub lk: Lk,
     pub pt: u16,
     pub frag_id: u8,
@@ -77,6 +101,27 @@ impl Case {
                 rx2.mem.free.push(vec![0u8; buf.len()]);
             }
             rx = rx2;
+        }
+        if self.rx_prior != RxPrior::Fresh {
+            use crate::refm::Desc;
+            // label as the sender would write it now (re-use after the same label): keeps both label memories in step
+            let lw = if matches!(self.lk, Lk::AfterSame(_)) { Lbl::ReUse } else { self.lk.label() };
+            let p = self.pdu.len();
+            let pkts: Vec<Vec<u8>> = match self.rx_prior {
+                RxPrior::AbandonedSameHeader => {
+                    let total = (p + 2 + lw.wire_len()) as u16;
+                    let mut v = vec![Desc::first(lw, self.pt, self.frag_id, total, &self.pdu[..p.min(1)]).print()];
+                    if p >= 3 {
+                        v.push(Desc::inter(self.frag_id, &self.pdu[1..2]).print());
+                    }
+                    v
+                }
+                _ => vec![Desc::first(lw, 0x86DD, self.frag_id.wrapping_add(2), (p + 9) as u16, &self.pdu[..p.min(1)]).print()],
+            };
+            for q in pkts {
+                let (_, rx2) = step_decap(&rx, &DefaultCrc {}, &TableMgr::none(), &q);
+                rx = rx2;
+            }
         }
         (enc, rx)
     }
@@ -216,6 +261,7 @@ pub fn case_from_desc(desc: &str) -> Option<Case> {
     let mut lk = LKS[0];
     let mut fid = 0u8;
     let mut st = 0usize;
+    let mut rxp = RxPrior::Fresh;
     for kv in desc.split(' ') {
         let (k, v) = kv.split_once('=')?;
         match k {
@@ -224,18 +270,19 @@ pub fn case_from_desc(desc: &str) -> Option<Case> {
             "label" => lk = *LKS.iter().find(|x| x.name() == v)?,
             "frag_id" => fid = v.parse().ok()?,
             "storage" => st = v.parse().ok()?,
+            "receiver" => rxp = *RX_PRIORS.iter().find(|x| x.name() == v)?,
             _ => {}
         }
     }
     let li = LKS.iter().position(|x| *x == lk)?;
     let mut bufs: Vec<usize> = (0..=p + 24).collect();
     bufs.extend([4097, 4098, 70000, 100, 1000, 5000, 65535, 65536, 65537, 65586, 69632]);
-    Some(Case { pdu: pdu(p, pat), lk, pt: [0x0800u16, 0x86DD, 0xFFFF][(p + li) % 3], frag_id: fid, storage: st, bufs, desc: desc.to_string() })
+    Some(Case { pdu: pdu(p, pat), rx_prior: rxp, lk, pt: [0x0800u16, 0x86DD, 0xFFFF][(p + li) % 3], frag_id: fid, storage: st, bufs, desc: desc.to_string() })
 }
 
 pub fn run(tier: Tier) -> i32 {
     let rep = Report::new("C02", tier);
-    rep.set_rule("for each case (PDU length, content pattern, label kind incl. first fragment replaced by re-use, protocol type, fragment id, storage size) the graph sender-progress x real-receiver under 'offer buffer of size b' is explored to closure: small regime = every PDU length 0..=40 (thorough 0..=96) with the complete buffer alphabet 0..=p+24 plus 4097/4098/65535/65536/65537/65586/69632/70000; medium regime = PDU lengths {100,255,256,257,300,513,1000,2049} with ~35 buffer sizes around the 8-bit boundary; large regime = PDUs needing fragmentation (4094..9000; thorough up to the 16-bit limit) with buffers {0..=16, 100, 1000, 4090..=4100, 5000, 65535, 70000}, states keyed by position with the receiver snapshot checked equal to the one determined by the position; every produced packet is fed to the real decap; liveness by a strictly decreasing rank for buffers >= 13; distinct = (call, status, buffer regime)");
+    rep.set_rule("for each case (PDU length, content pattern, label kind incl. first fragment replaced by re-use, protocol type, fragment id, storage size, receiver prior state: fresh / an unfinished earlier attempt with the same header on the same fragment id / an unfinished train on an aliasing id) the graph sender-progress x real-receiver under 'offer buffer of size b' is explored to closure: small regime = every PDU length 0..=40 (thorough 0..=96) with the complete buffer alphabet 0..=p+24 plus 4097/4098/65535/65536/65537/65586/69632/70000; medium regime = PDU lengths {100,255,256,257,300,513,1000,2049} with ~35 buffer sizes around the 8-bit boundary; large regime = PDUs needing fragmentation (4094..9000; thorough up to the 16-bit limit) with buffers {0..=16, 100, 1000, 4090..=4100, 5000, 65535, 70000}, states keyed by position with the receiver snapshot checked equal to the one determined by the position; every produced packet is fed to the real decap; liveness by a strictly decreasing rank for buffers >= 13; distinct = (call, status, buffer regime)");
     rep.assume("payload contents: 4 patterns (all contents of length <= 2 are swept by C01/C12); protocol types {0x0800, 0x86DD, 0xFFFF}; fragment ids {0, 1, 255} (all 256 for one PDU length)");
     small(&rep, tier);
     large(&rep, tier);
@@ -250,10 +297,14 @@ fn small(rep: &Report, tier: Tier) {
             let fids: Vec<u8> = if p == 5 { (0..=255).collect() } else { vec![[0u8, 1, 255][(p + li) % 3]] };
             for fid in fids {
                 for storage in [p, p + 5] {
-                    let pat = ((p + li + storage) % 4) as u8;
-                    let mut bufs: Vec<usize> = (0..=p + 24).collect();
-                    bufs.extend([4097, 4098, 65535, 65536, 65537, 65586, 69632, 70000]);
-                    cases.push(Case { pdu: pdu(p, pat), lk, pt: [0x0800u16, 0x86DD, 0xFFFF][(p + li) % 3], frag_id: fid, storage, bufs, desc: format!("pdu_len={} pattern={} label={} frag_id={} storage={}", p, pat, lk.name(), fid, storage) });
+                    // receiver prior states: all three for one fragment id per cell, fresh only for the id sweep
+                    let rxps: Vec<RxPrior> = if p == 5 && fid > 2 { vec![RxPrior::Fresh] } else { RX_PRIORS.to_vec() };
+                    for rx_prior in rxps {
+                        let pat = ((p + li + storage) % 4) as u8;
+                        let mut bufs: Vec<usize> = (0..=p + 24).collect();
+                        bufs.extend([4097, 4098, 65535, 65536, 65537, 65586, 69632, 70000]);
+                        cases.push(Case { pdu: pdu(p, pat), rx_prior, lk, pt: [0x0800u16, 0x86DD, 0xFFFF][(p + li) % 3], frag_id: fid, storage, bufs, desc: format!("pdu_len={} pattern={} label={} frag_id={} storage={} receiver={}", p, pat, lk.name(), fid, storage, rx_prior.name()) });
+                    }
                 }
             }
         }
@@ -265,7 +316,7 @@ fn small(rep: &Report, tier: Tier) {
             bufs.extend([p + 3, p + 6, p + 7, p + 10, p + 13]);
             bufs.sort();
             bufs.dedup();
-            cases.push(Case { pdu: pdu(p, (li % 4) as u8), lk, pt: 0x0800, frag_id: 255, storage: p, bufs, desc: format!("pdu_len={} pattern={} label={} frag_id=255 storage={}", p, li % 4, lk.name(), p) });
+            cases.push(Case { pdu: pdu(p, (li % 4) as u8), rx_prior: RxPrior::Fresh, lk, pt: 0x0800, frag_id: 255, storage: p, bufs, desc: format!("pdu_len={} pattern={} label={} frag_id=255 storage={}", p, li % 4, lk.name(), p) });
         }
     }
     let n_cases = cases.len();
@@ -326,7 +377,7 @@ fn large(rep: &Report, tier: Tier) {
         let l = lk.label();
         let fid = 1u8;
         let pt = 0x0800u16;
-        let c = Case { pdu: pdu(p, 0), lk, pt, frag_id: fid, storage: p, bufs: bufs.clone(), desc: format!("pdu_len={} pattern=0 label={} frag_id={} storage={}", p, lk.name(), fid, p) };
+        let c = Case { pdu: pdu(p, 0), rx_prior: RxPrior::Fresh, lk, pt, frag_id: fid, storage: p, bufs: bufs.clone(), desc: format!("pdu_len={} pattern=0 label={} frag_id={} storage={}", p, lk.name(), fid, p) };
         // Start transitions through the generic step (full receiver)
         let init = c.init().pop().unwrap();
         let mut reach = vec![false; p + 1];
